@@ -36,7 +36,10 @@ RULE = (
     'pairs of an 8-call menu on one model object, and pairs differing in exactly one argument (every argument of '
     'every entry point, both orders), each with fresh arrays and with the same array objects refilled in place; '
     'profiles with points above the thrust ceiling / turboprop beyond C_f2 (only finite, never-increasing, '
-    'prescribed end and MTOW clauses judged there). A profile case is '
+    'prescribed end and MTOW clauses judged there); two different model objects (all ordered pairs of the six '
+    'parameter sets) one after the other on identical argument values. In every multi-call case the arrays '
+    'returned by the first call must be unchanged after the second, and no call may modify its argument arrays. '
+    'A profile case is '
     'non-trivial when fuel was burnt; distinct = distinct case'
 )
 ASSUMPTIONS = [
@@ -426,6 +429,35 @@ def sublattices(tier, seed):
                     var = dict(b, vary=a)
                     for inplace in (False, True):
                         cases += [dict(k='hist', a=b, b=var, inplace=inplace), dict(k='hist', a=var, b=b, inplace=inplace)]
+    # two DIFFERENT model objects, one after the other, on identical argument values: every ordered pair of
+    # the six parameter sets (incl. two objects of the same set); the second call is the set's own mission and
+    # is judged, the first is another aircraft flying the same numbers (not judged, only kept for aliasing)
+    dcases = []
+    for eng in ENGINES:
+        for ps in (0, 1):
+            base = dict(eng=eng, ps=ps)
+            calls_ = [dict(base, k='pt', alt=4, dT=3, cr=2, m=1)]
+            for pr in ('mixed', 'climb'):
+                prof = dict(base, n=5, prof=pr, spd='accelerating', cr='middle', seg=50000.0, gs=0.0, m=1, it=10)
+                calls_ += [dict(prof, k='ci'), dict(prof, k='cf')]
+                calls_ += [dict(prof, k=k, est='high', mtow='max', lf=1.0, res=1) for k in ('fr', 'fv')]
+            for b in calls_:
+                for e2 in ENGINES:
+                    for p2 in (0, 1):
+                        for inplace in (False, True):
+                            dcases.append(dict(k='hist', a=b, b=b, a_model=dict(eng=e2, ps=p2), inplace=inplace))
+    subs.append(
+        {
+            'name': 'two different model objects one after the other on identical argument values',
+            'axes': {
+                'second (judged) aircraft': [f'{e}{i}' for e in ENGINES for i in (0, 1)],
+                'first aircraft': [f'{e}{i}' for e in ENGINES for i in (0, 1)],
+                'entry': ['pt', 'ci', 'cf', 'fr', 'fv'], 'profile': ['mixed', 'climb'],
+                'arrays of the second call': ['fresh', 'same objects refilled in place'],
+            },  # fmt: skip
+            'cases': dcases,
+        }
+    )
     # points outside the thrust / fuel envelope: only finite / never-increasing / prescribed end / MTOW judged
     ocases = []
     oax = dict(
@@ -523,6 +555,26 @@ def _arrays(inp, buf=None):
 _ORDER = ['temperature', 'altitude', 'v_tas', 'rocd', 'acceleration', 'in_cruise', 'groundspeed']
 
 
+def _snapshot(a):
+    np = _STATE['np']
+    return {k: v.copy() for k, v in a.items() if isinstance(v, np.ndarray)}
+
+
+def _changed_inputs(a, snap):
+    """Names of the argument arrays the call under test left different from what it was given."""
+    np = _STATE['np']
+    return [k for k, c in snap.items() if a[k].dtype != c.dtype or not np.array_equal(a[k], c, equal_nan=c.dtype != bool)]
+
+
+def _keep_result(label, obj):
+    """Remember the very object a call returned plus a copy taken at that moment (multi-call cases
+    re-check after the last call that earlier results were not overwritten)."""
+    keep = _STATE.get('keep')
+    if keep is not None:
+        np = _STATE['np']
+        keep.append((label, obj, np.array(obj, dtype=float, copy=True)))
+
+
 def _call_entry(case, inp, model, buf=None):
     """-> (returned mass list | None, recorded sgr calls [(mass list, sgr list)], exception | None)"""
     np = _STATE['np']
@@ -544,13 +596,17 @@ def _call_entry(case, inp, model, buf=None):
         f = fuel_menu(case)
         args += [f['est'], f['mtow'], f['oew'], f['mpl'], f['lf'], f['reserve'], n_iter(case)]
     model.calculate_specific_ground_range = spy
+    snap = _snapshot(a)
+    _STATE['changed'] = []
     try:
         r = getattr(model, ENTRY[case['k']])(*args)
+        _keep_result(ENTRY[case['k']], r)
         return np.array(r, dtype=float).tolist(), calls, None
     except Exception as ex:  # classified by the caller
         return None, calls, ex
     finally:
         del model.calculate_specific_ground_range
+        _STATE['changed'] = _changed_inputs(a, snap)
 
 
 def _close(a, b, scale=None):
@@ -606,12 +662,18 @@ def _run_point(case, model, buf=None):
     inp = point_inputs(case)
     a = _arrays(inp, buf)
     vio = []
+    snap = _snapshot(a)
     try:
         thr = model.calculate_thrust(*[a[k] for k in ['mass'] + _ORDER[:-1]])
         sgr = model.calculate_specific_ground_range(*[a[k] for k in ['mass'] + _ORDER])
     except Exception as ex:
         v, out = _internal_error(ex, 'calculate_thrust / calculate_specific_ground_range')
         return {'outcome': out, 'nontrivial': True, 'violations': [v]}
+    _keep_result('calculate_thrust', thr)
+    _keep_result('calculate_specific_ground_range', sgr)
+    changed = _changed_inputs(a, snap)
+    if changed:
+        vio.append(V('input-modified', f'calculate_thrust / calculate_specific_ground_range changed its argument arrays {changed}'))
     thr = np.array(thr, dtype=float).tolist()
     sgr = np.array(sgr, dtype=float).tolist()
     n = len(inp['mass'])
@@ -636,6 +698,8 @@ def _run_profile(case, model, buf=None):
         v, out = _internal_error(ex, ENTRY[k])
         return {'outcome': out, 'nontrivial': True, 'violations': [v]}
     vio = []
+    if _STATE.get('changed'):
+        vio.append(V('input-modified', f'{ENTRY[k]} changed its argument arrays {_STATE["changed"]}'))
     if len(ret) != n or not all(math.isfinite(x) for x in ret) or not calls:
         vio.append(V('profile-shape', f'{ENTRY[k]} returned {ret} for {n} points ({len(calls)} fuel-flow evaluations)'))
         return {'outcome': 'bad-shape', 'nontrivial': True, 'violations': vio}
@@ -736,17 +800,41 @@ def _run_single(case, model, buf=None):
 
 def run_case(case):
     if case['k'] == 'hist':
-        # two calls on one model object: the second must be judged exactly like a first call
+        # two calls in one process: the second must be judged exactly like a first call, and what the
+        # first call returned must still be what it was when the second has finished
         try:
             model = _new_model(case['b'])
+            # first call on the same model object, or on another aircraft's model (case['a_model'])
+            # flying the very same argument values
+            model_a = _new_model(case['a_model']) if case.get('a_model') else model
         except Exception as ex:
             v, out = _internal_error(ex, 'Bada3FuelBurnModel(Bada3AircraftParameters)')
             return {'outcome': out, 'nontrivial': True, 'violations': [v]}
+        np = _STATE['np']
         buf = {} if case.get('inplace') else None
-        first = _run_single(case['a'], model, buf)
-        r = _run_single(case['b'], model, buf)
+        _STATE['keep'] = keep = []
+        try:
+            first = _run_single(case['a'], model_a, buf)
+            n_first = len(keep)
+            r = _run_single(case['b'], model, buf)
+        finally:
+            _STATE['keep'] = None
+        if case.get('a_model'):
+            first_label = f'{case["a_model"]["eng"]}{case["a_model"]["ps"]} model, unjudged'
+            if first['outcome'].startswith('error'):
+                first_label += ' ' + first['outcome'].split(' in ')[0]
+        else:
+            first_label = first['outcome'].split(':')[0]
+            r['violations'] = [v for v in first['violations'] if v['kind'] == 'input-modified'] + r['violations']
+        for label, obj, copy in keep[:n_first]:
+            now = np.array(obj, dtype=float)
+            if now.shape != copy.shape or not np.array_equal(now, copy, equal_nan=True):
+                r['violations'].append(
+                    V('earlier-result-changed', f'the array returned by the first call ({label}) read {copy.tolist()} when it was '
+                      f'returned and reads {now.tolist()} after the second call ({case["b"]["k"]})')
+                )  # fmt: skip
         how = 'same arrays refilled' if buf is not None else 'fresh arrays'
-        r['outcome'] = f'after {case["a"]["k"]} ({first["outcome"].split(":")[0]}), {how}: ' + r['outcome'].split(':')[0]
+        r['outcome'] = f'after {case["a"]["k"]} ({first_label}), {how}: ' + r['outcome'].split(':')[0]
         return r
     try:
         model = _new_model(case)
